@@ -304,6 +304,94 @@ func RAddMono(c *core.Ctx) {
 	if n == 0 {
 		c.Anchor("in-place stores into CharSet.ranges elements")
 	}
+	// the same for the slice as a whole: a method that adds members may replace c.ranges only by
+	// something grown from c.ranges (append(c.ranges, …), a re-slice of it); assigning a freshly
+	// computed list throws away the members collected so far ([a[:^alpha:]] loses the a)
+	m := 0
+	for _, fn := range p.ModuleFuncs() {
+		recv := fn.Signature.Recv()
+		if recv == nil || len(fn.Params) == 0 {
+			continue
+		}
+		if _, nm := core.NamedOf(recv.Type()); nm != "CharSet" {
+			continue
+		}
+		if _, isPtr := recv.Type().(*types.Pointer); !isPtr {
+			continue
+		}
+		name := core.SSAName(fn)
+		renorm := false
+		for _, b := range fn.Blocks {
+			for _, ins := range b.Instrs {
+				if st, ok := ins.(*ssa.Store); ok && core.FieldVarOfAddr(st.Addr) == neg {
+					renorm = true
+				}
+			}
+		}
+		// a method that declares the class to be "anything" replaces the list by the full range: a superset of whatever was there
+		if anyF := p.LookupField("syntax", "CharSet", "anything"); anyF != nil {
+			for _, b := range fn.Blocks {
+				for _, ins := range b.Instrs {
+					if st, ok := ins.(*ssa.Store); ok && core.FieldVarOfAddr(st.Addr) == anyF {
+						if k, ok := st.Val.(*ssa.Const); ok && k.Value != nil && k.Value.String() == "true" {
+							renorm = true
+						}
+					}
+				}
+			}
+		}
+		var fromOld func(v ssa.Value, depth int) bool
+		fromOld = func(v ssa.Value, depth int) bool {
+			if depth > 6 {
+				return false
+			}
+			switch x := v.(type) {
+			case *ssa.UnOp:
+				if x.Op == token.MUL && core.FieldVarOfAddr(x.X) == rng {
+					if fa, ok := x.X.(*ssa.FieldAddr); ok && fa.X == ssa.Value(fn.Params[0]) {
+						return true
+					}
+				}
+			case *ssa.Slice:
+				return fromOld(x.X, depth+1)
+			case *ssa.Phi:
+				for _, e := range x.Edges {
+					if !fromOld(e, depth+1) {
+						return false
+					}
+				}
+				return len(x.Edges) > 0
+			case *ssa.Call:
+				if bi, ok := x.Call.Value.(*ssa.Builtin); ok && bi.Name() == "append" && len(x.Call.Args) > 0 {
+					return fromOld(x.Call.Args[0], depth+1)
+				}
+				if cal := x.Call.StaticCallee(); cal != nil && cal.Pkg != nil && cal.Pkg.Pkg.Path() == "slices" && len(x.Call.Args) > 0 {
+					return fromOld(x.Call.Args[0], depth+1) // slices.Insert / Grow / Clip …
+				}
+			}
+			return false
+		}
+		cnt := 0
+		for _, b := range fn.Blocks {
+			for _, ins := range b.Instrs {
+				st, ok := ins.(*ssa.Store)
+				if !ok || core.FieldVarOfAddr(st.Addr) != rng {
+					continue
+				}
+				if fa, ok := st.Addr.(*ssa.FieldAddr); !ok || fa.X != ssa.Value(fn.Params[0]) {
+					continue
+				}
+				cnt++
+				m++
+				c.Visit(name)
+				c.Check(renorm || fromOld(st.Val, 0), fmt.Sprintf("%s / assignment #%d to c.ranges keeps what was collected", name, cnt), st.Pos(),
+					"c.ranges is replaced by a value that is not grown from c.ranges in a method that adds to the class (it does not re-normalise: it never sets negate): the members added before this call are lost")
+			}
+		}
+	}
+	if m == 0 {
+		c.Anchor("assignments to CharSet.ranges in CharSet methods")
+	}
 }
 
 // ---------------------------------------------------------------------------
